@@ -1,4 +1,4 @@
 SPECIFICATION Spec
-CONSTANTS MaxLen = 4 CopyOnCompute = "none"
+CONSTANTS MaxLen = 4 Classes <- QuickClasses CopyOnCompute = "none"
 INVARIANT Fresh
 CHECK_DEADLOCK FALSE
